@@ -169,12 +169,11 @@ def distributeGas (e : Env) (l : Ledger) (acc : NeoAcc) : Option (NeoAcc × Opti
 
 /-! ## vote bookkeeping -/
 
-/-- dropCandidateIfZero (782-793).  The storage items (candidate, voter reward) are deleted; the
-`delete(cache.gasPerVoteCache, string(voterKey))` of l.790 uses the 34-byte prefixed key while the cache is
-keyed by the 33-byte public key (548, 581), so the cache entry stays. -/
+/-- dropCandidateIfZero (782-793): the storage items (candidate, voter reward) and the cached GAS-per-vote value
+are deleted (the cache is keyed by the 33-byte public key: `voterKey[1:]`, fix 350d30d). -/
 def dropIfZero (l : Ledger) (c : Nat) (cd : Cand) : Option Ledger :=
   if cd.reg ∨ cd.votes ≠ 0 then none
-  else some { l with cands := del l.cands c, gpv := del l.gpv c }
+  else some { l with cands := del l.cands c, gpv := del l.gpv c, gpvCache := del l.gpvCache c }
 
 /-- ModifyAccountVotes (1126-1146); the Bool is `err == nil`. -/
 def modVotes (l : Ledger) (acc : NeoAcc) (value : Int) (isNew : Bool) : Ledger × Bool :=
